@@ -13,4 +13,6 @@ MUTANTS = [
     M('C08', 'zero_ptr clears the low hex only (seed C08_2)', 'flipjump/stl/hex/pointers/write_pointers.fj', "        .pointers.read_byte_from_inners_ptrs\n        .pointers.xor_byte_to_flip_ptr hex.pointers.read_byte\n    }\n\n    //  Time Complexity: w(0.75@+5)  + 17@+37", "        .pointers.read_byte_from_inners_ptrs\n        .pointers.xor_hex_to_flip_ptr hex.pointers.read_byte\n    }\n\n    //  Time Complexity: w(0.75@+5)  + 17@+37", 'C08.CELL-WIDTH'),
     M('C08', 'write_byte xors back one hex only', 'flipjump/stl/hex/pointers/write_pointers.fj', "        .xor 2, hex.pointers.read_byte, src\n        .pointers.xor_byte_to_flip_ptr hex.pointers.read_byte", "        .xor 2, hex.pointers.read_byte, src\n        .pointers.xor_hex_to_flip_ptr hex.pointers.read_byte", 'C08.CELL-WIDTH'),
     M('C08', 'xor_byte_to_flip_ptr shifts the second hex by 8', 'flipjump/stl/hex/pointers/xor_to_pointer.fj', "            rep(2, i) .xor_hex_to_flip_ptr hex+i*dw, 4*i", "            rep(2, i) .xor_hex_to_flip_ptr hex+i*dw, 8*i", 'C08.CELL-WIDTH'),
+    M('C08', 'EQ push n stride spelled i*2*dw', 'flipjump/stl/hex/pointers/stack.fj', "        rep(n/2, i) .push_byte hex+2*i*dw", "        rep(n/2, i) .push_byte hex+i*2*dw", None),
+    M('C08', 'EQ pop n offset with the product expanded', 'flipjump/stl/hex/pointers/stack.fj', "        rep(n/2, i) .pop_byte hex+(n-n%2-2*(i+1))*dw", "        rep(n/2, i) .pop_byte hex+(n-n%2-2*i-2)*dw", None),
 ]
